@@ -68,14 +68,21 @@ def kindOf : KindId → Kind
 /-- which frame kind the bytes announce, as the two codecs dispatch: first byte 2 (bolt codec) resp. 1 (boltv2 codec)
 selects the other family; then the command type byte (offset 1 for bolt, 2 for boltv2): 1 request, 2 one-way, 0 response. -/
 def classify (boltv2Codec : Bool) (b : Bytes) : Option (Kind × Bool) :=
-  let v2 := if boltv2Codec then !(b.length > 0 && byteAt b 0 == 1) else (b.length > 0 && byteAt b 0 == 2)
-  let less := if v2 then 22 else 20
-  if b.length < less then none
+  let v2 : Bool :=
+    if boltv2Codec then !(decide (b.length > 0 ∧ byteAt b 0 = 1)) else decide (b.length > 0 ∧ byteAt b 0 = 2)
+  if v2 then
+    if b.length ≥ 22 then
+      if byteAt b 2 = 1 then some (v2req, false)
+      else if byteAt b 2 = 2 then some (v2req, true)
+      else if byteAt b 2 = 0 then some (v2resp, false)
+      else none
+    else none
   else
-    let t := byteAt b (if v2 then 2 else 1)
-    if t == 1 then some (if v2 then v2req else v1req, false)
-    else if t == 2 then some (if v2 then v2req else v1req, true)
-    else if t == 0 then some (if v2 then v2resp else v1resp, false)
+    if b.length ≥ 20 then
+      if byteAt b 1 = 1 then some (v1req, false)
+      else if byteAt b 1 = 2 then some (v1req, true)
+      else if byteAt b 1 = 0 then some (v1resp, false)
+      else none
     else none
 
 /-- reference decode: a complete, well-formed frame at the head of `b`, else `none` -/
